@@ -135,6 +135,65 @@ def handle (op : String) (args res : List String) : Option Verdict :=
          | .ok _, _ => .bad s!"Transfer(different zones): model accepts, impl={res}")
       | _, _, _, _, _, _, _, _, _, _, _, _ => .bad "parse"
     | _ => .bad "parse"
+  | "utm_consts" => some <|
+    match parseFs res with
+    | some [sh, ua, uf, ma, mf, _, _] =>
+      if !(F64.same sh utmShift) then .bad s!"UTMShift: impl={showF sh} model={showF utmShift}"
+      else if !(F64.same ua wgs84a && F64.same ma wgs84a) then .bad s!"EquatorialRadius: impl={showF ua}/{showF ma} model={showF wgs84a}"
+      else if !(F64.same uf wgs84f && F64.same mf wgs84f) then .bad s!"Flattening: impl={showF uf}/{showF mf} model={showF wgs84f}"
+      else .ok
+    | _ => .bad "parse"
+  | "gconv" => some (.skip "the values GeoConvert prints are judged by the harness against the conversion classes")
+  | "gc_alt" => some <|
+    -- GeoCoords: the bookkeeping of the (zone, northp, x, y) constructor and of SetAltZone around the implementation's own Reverse / Forward
+    match args with
+    | [_, _, _, _, _, _, _, _, _, "E"] => .skip "the constructor throws: judged by the harness against UTMUPS::Forward / Reverse"
+    | [kind, a1, a2, a3, a4, altz, _, _, altz2, mz, mn, mE, mN, mg, mk, mlat, mlon, kok, kz, kn, kx, ky, kg, kk, kok2, kz2, kn2, kx2, ky2, kg2, kk2] =>
+      match parseI mz, pb mn, parseFs [mE, mN, mg, mk, mlat, mlon], parseI altz, pb kok, parseI kz, pb kn, parseFs [kx, ky, kg, kk],
+            parseI altz2, pb kok2, parseI kz2, pb kn2, parseFs [kx2, ky2, kg2, kk2] with
+      | some zone, some northp, some [e, n, g, k, lat, lon], some az, some fok, some fz, some fnp, some [fx, fy, fg, fk],
+        some az2, some fok2, some fz2, some fnp2, some [fx2, fy2, fg2, fk2] =>
+        let st : GeoState := ⟨zone, northp, e, n, g, k, lat, lon⟩
+        -- (a) constructor bookkeeping
+        let ctor : Verdict :=
+          if kind == "1" then
+            match parseI a1, pb a2, parseF a3, parseF a4 with
+            | some zin, some npin, some xin, some yin =>
+              (match resetUTM zin npin xin yin (.ok (lat, lon, g, k)) with
+               | .ok m => if m.zone == zone && m.northp == northp && F64.same m.easting e && F64.same m.northing n then .ok
+                          else .bad s!"GeoCoords(zone, northp, x, y): impl=({zone},{northp},{showF e},{showF n}) model=({m.zone},{m.northp},{showF m.easting},{showF m.northing})"
+               | .error er => .bad s!"GeoCoords(zone, northp, x, y): model rejects ({er}), impl accepts")
+            | _, _, _, _ => .bad "parse"
+          else
+            match parseF a1, parseF a2 with
+            | some lat0, some lon0 => if F64.same lat lat0 && F64.same lon (MathF.angNormalize lon0) then .ok else .bad "GeoCoords(lat, lon): Latitude()/Longitude() are not the arguments (longitude normalised)"
+            | _, _ => .bad "parse"
+        -- (b) SetAltZone
+        let fwd : F64 → F64 → Int → Except Err FwdOut := fun _ _ _ => if fok then .ok ⟨fz, fnp, fx, fy, fg, fk⟩ else .error "Forward"
+        let fwd2 : F64 → F64 → Int → Except Err FwdOut := fun _ _ _ => if fok2 then .ok ⟨fz2, fnp2, fx2, fy2, fg2, fk2⟩ else .error "Forward"
+        let cmp (name : String) (m : Except Err AltState) (r : List String) : Verdict :=
+          match m, r with
+          | .error _, ["!E"] => .ok
+          | .error er, _ => .bad s!"{name}: model rejects ({er}), impl={r}"
+          | .ok _, ["!E"] => .bad s!"{name}: impl threw, model accepts"
+          | .ok m, [rz, rE, rN, rg, rk] =>
+            (match parseI rz, parseFs [rE, rN, rg, rk] with
+             | some iz, some [iE, iN, ig, ik] =>
+               if iz == m.zone && F64.same iE m.easting && F64.same iN m.northing && F64.same ig m.gamma && F64.same ik m.k then .ok
+               else .bad s!"{name}: impl=({iz},{showF iE},{showF iN}) model=({m.zone},{showF m.easting},{showF m.northing})"
+             | _, _ => .bad "parse")
+          | _, _ => .bad "shape"
+        let alt : Verdict :=
+          match setAltZone st (copyToAlt st) az fwd with
+          | .error er => cmp "SetAltZone" (.error er) res
+          | .ok a1 =>
+            -- the result line is "<first alternate state> ; <second alternate state or !E>"
+            let r1 := res.takeWhile (· != ";")
+            let r2 := (res.dropWhile (· != ";")).drop 1
+            both (cmp "SetAltZone" (.ok a1) r1) (cmp "SetAltZone (second request)" (setAltZone st a1 az2 fwd2) r2)
+        both ctor alt
+      | _, _, _, _, _, _, _, _, _, _, _, _, _ => .bad "parse"
+    | _ => .bad "parse"
   | _ => none
 
 end GeoVerif.Corr.C04
